@@ -25,7 +25,7 @@ CASE_TIMEOUT = 60
 
 def negfn(tier):
     dts = simspace.DTS[tier][:3] if tier == "quick" else simspace.DTS[tier]
-    fns = ["0.5-a/100", "b/50-1", "0-0.3", "min(0.2, 1-a/40)"]
+    fns = ["0.5-a/100", "b/50-1", "0-0.3", "min(0.2, 1-a/40)", "0.3-(t-2000.4)*0.5"]  # the last one is positive first and negative later in the run
     for dt in dts:
         for fn, fmt, other in itertools.product(fns, ["probability", "rate", "number", "duration"], [None, ("probability", None, 0.3), ("probability", None, 4 / dt)]):
             spec = simspace.base_spec(["a", "b", "c"], dt)
